@@ -96,6 +96,14 @@ func (s *Server) parseArea(ovs []string, doClip bool) (vs []string, o geojson.Ob
 			return
 		}
 
+		if !finiteArg(b1) {
+			err = errInvalidArgument(sb1)
+			return
+		}
+		if !finiteArg(b2) {
+			err = errInvalidArgument(sb2)
+			return
+		}
 		if b1 == b2 {
 			err = fmt.Errorf("equal bearings (%s == %s), use CIRCLE instead", sb1, sb2)
 			return
